@@ -918,6 +918,54 @@ def gen_hist(seed, count):
 PYGEN['py_hist'] = gen_hist
 
 
+def gen_c14(seed, count):
+    """tiny broker limits (Maximum Packet Size 2..20) against every kind of client packet at its smallest sizes: the three
+    shapes of DISCONNECT (2, 4 bytes, with properties), acknowledgements owed for inbound publishes, PINGREQ, minimal
+    publishes / subscribes / unsubscribes, PUBREL after PUBREC"""
+    out = []
+    for idx in range(count):
+        r = random.Random((seed << 20) ^ idx ^ 0xC14)
+        m = r.choice([2, 2, 3, 3, 4, 5, 6, 8, 12, 20])
+        c = Case(rx=64, tx=256, ka=r.choice([0, 0, 1]))
+        c.connect(connack(0, 0, [(39, m)]))
+        for _ in range(r.randint(1, 4)):
+            x = r.random()
+            if x < 0.2:
+                c.publish(r.choice([b'a', b'ab', b'abcdef']), b'x' * r.choice([0, 1, 2, 5, 12]), qos=r.choice([0, 1, 2]))
+            elif x < 0.3:
+                c.subscribe(((r.choice([b'a', b'abcd']), 0),))
+            elif x < 0.4:
+                c.unsubscribe((r.choice([b'a', b'abcd']),))
+            elif x < 0.55:
+                c.feed(publish(r.choice([1, 2]), r.randint(1, 3), b't', b'p'))
+                c.poll()
+            elif x < 0.65:
+                c.feed(ack(6, r.randint(1, 3)))
+                c.poll()
+            elif x < 0.75:
+                c.advance(1000)
+                c.poll()
+            elif x < 0.85:
+                c.publish(b'a', b'', qos=2)
+                c.feed(ack(5, 1))
+                c.poll()
+            else:
+                c.poll()
+        y = r.random()
+        if y < 0.25:
+            c.disconnect()
+        elif y < 0.6:
+            c.disconnect(reason=r.choice([0, 4, 0x80, 0x98]))
+        elif y < 0.8:
+            c.disconnect(reason=r.choice([0, 4]), props=r.choice([[], [(31, b'bye')], [(38, (b'k', b'v'))]]))
+        c.poll()
+        out.append(c.line())
+    return out
+
+
+PYGEN['py_c14'] = gen_c14
+
+
 def gen_c06(seed, count):
     """flow control against a small Receive Maximum: the window is filled with QoS 1 / QoS 2 publishes, subscribes and
     unsubscribes are acknowledged in between (their acknowledgements must not open the window), publish
